@@ -41,7 +41,7 @@ type streamEnd struct {
 
 func (s streamEnd) Read(ctx context.Context, b []byte) (int, error)  { return s.r.ReadContext(ctx, b) }
 func (s streamEnd) Write(ctx context.Context, b []byte) (int, error) { return s.r.WriteContext(ctx, b) }
-func (s streamEnd) Close()                                            { s.r.Close() }
+func (s streamEnd) Close()                                           { s.r.Close() }
 
 type packetEnd struct {
 	p    netctx.PacketConn
@@ -472,7 +472,7 @@ func main() {
 	flag.Parse()
 	_, _ = nshard, replay
 	r := res.New("C17")
-	r.Rule = "both directions of a pair (netctx.Conn / connctx over net.Pipe; netctx.PacketConn over loopback UDP and over vnet sockets) driven concurrently by writer and reader workers; every operation gets a context that is live, cancelled before the call, cancelled 0-400us into the call (incl. the watcher start window), or a timeout context; the operation right after a cancelled one is a live-context probe; oracle: stream bytes received == reported-written prefixes (also partial), datagrams received = in-order duplicate-free intact subsequence of those reported written and complete under pacing, nothing reported unwritten arrives, a live-context operation never fails with a timeout/context error (no leftover deadline), a cancelled operation is not found parked 250ms after cancellation; distinct = (kind, seed) cases"
+	r.Rule = "both directions of a pair (netctx.Conn / connctx over net.Pipe; netctx.PacketConn over loopback UDP and over vnet sockets) driven concurrently by writer and reader workers; every operation gets a context that is live, cancelled before the call, cancelled 0-400us into the call (incl. the watcher start window), or a timeout context; the operation right after a cancelled one is a live-context probe; oracle: stream bytes received == reported-written prefixes (also partial), datagrams received = in-order duplicate-free intact subsequence of those reported written and complete under pacing, nothing reported unwritten arrives, a live-context operation never fails with a timeout/context error (no leftover deadline), a cancelled operation is not found parked 250ms after cancellation; plus a phase with two same-direction operations in flight on one stream wrapper (one being cancelled, one with a live context, which must never see a timeout); distinct = (kind, seed) cases"
 	r.Assumptions = []string{"loopback UDP and vnet do not lose datagrams while at most 8 are outstanding", "promptness is decided by inspecting the worker's goroutine state 250ms after its cancel instant, only when no operation completed for 300ms"}
 	kinds := []string{"netctx-pipe", "connctx-pipe", "netctx-udp", "netctx-vnet"}
 	n := 20
@@ -508,5 +508,122 @@ func main() {
 			}
 		}
 	}
+	// two operations of the same direction in flight on one wrapper: the earlier one is cancelled while the later one,
+	// with a live context, waits behind it (the wrappers serialise same-direction calls); the live one must not be
+	// timed out by the deadline the cancellation used
+	for _, k := range []string{"netctx-pipe", "connctx-pipe"} {
+		for _, dir := range []string{"read", "write"} {
+			r.Eval(1)
+			r.Count("cases_same_direction_"+dir, 1)
+			if key, d := runSameDir(k, dir, ops, rng.Int63(), r); key != "" {
+				seen[key]++
+				if seen[key] <= 2 {
+					r.Violate(key, d, map[string]interface{}{"kind": k, "phase": "same-direction", "direction": dir})
+				}
+			} else if d != "" {
+				r.Inconc(k + ": " + d)
+			}
+		}
+	}
 	r.Write(*out)
+}
+
+// runSameDir: on end A a "cancelled" worker issues operations whose contexts are cancelled 20-300 us into the call, and a
+// "live" worker issues the same kind of operation with context.Background(); the peer end feeds / drains slowly so that
+// operations block. The live worker's operations must end with data moved (or with the pipe's own error once the case
+// closes the pipe), never with a timeout or a context error.
+func runSameDir(kind, dir string, iters int, seed int64, r *res.Result) (string, string) {
+	p, err := newPair(kind)
+	if err != nil {
+		return "", "inconclusive: " + err.Error()
+	}
+	if p.cleanup != nil {
+		defer p.cleanup()
+	}
+	var closing int32
+	var vmu sync.Mutex
+	vkey, vdesc := "", ""
+	var wg, peerWG sync.WaitGroup
+	stopPeer := make(chan struct{})
+	peerWG.Add(1)
+	go func() { // peer: feeds (for reads) or drains (for writes), slowly
+		defer peerWG.Done()
+		buf := make([]byte, 64)
+		for {
+			select {
+			case <-stopPeer:
+				return
+			default:
+			}
+			time.Sleep(150 * time.Microsecond)
+			ctx, cancel := context.WithTimeout(context.Background(), 50*time.Millisecond)
+			if dir == "read" {
+				p.b.Write(ctx, []byte("0123456789"))
+			} else {
+				p.b.Read(ctx, buf)
+			}
+			cancel()
+		}
+	}()
+	op := func(ctx context.Context, buf []byte) (int, error) {
+		if dir == "read" {
+			return p.a.Read(ctx, buf)
+		}
+		return p.a.Write(ctx, buf)
+	}
+	cancelledDone := make(chan struct{})
+	wg.Add(2)
+	go func() { // cancelled worker
+		defer wg.Done()
+		defer close(cancelledDone)
+		rng := rand.New(rand.NewSource(seed))
+		buf := make([]byte, 16)
+		for i := 0; i < iters; i++ {
+			ctx, cancel := context.WithCancel(context.Background())
+			t := time.AfterFunc(time.Duration(20+rng.Intn(280))*time.Microsecond, cancel)
+			op(ctx, buf)
+			t.Stop()
+			cancel()
+			r.Count("same_direction_cancelled_ops", 1)
+		}
+	}()
+	go func() { // live worker
+		defer wg.Done()
+		buf := make([]byte, 16)
+		for {
+			n, err := op(context.Background(), buf)
+			r.Count("same_direction_live_ops", 1)
+			if err != nil {
+				if atomic.LoadInt32(&closing) == 0 && (isTimeout(err) || errors.Is(err, context.Canceled) || errors.Is(err, context.DeadlineExceeded)) {
+					vmu.Lock()
+					if vkey == "" {
+						vkey = "ctxio:" + kind + ":leftover-deadline-" + dir + "-concurrent"
+						vdesc = fmt.Sprintf("a %s with context.Background() returned (%d, %v) while another %s on the same wrapper was being cancelled: it ran into the deadline that the cancellation had set", dir, n, err, dir)
+					}
+					vmu.Unlock()
+				}
+				if atomic.LoadInt32(&closing) != 0 || !isTimeout(err) {
+					return
+				}
+			}
+		}
+	}()
+	select {
+	case <-cancelledDone:
+	case <-time.After(60 * time.Second):
+		atomic.StoreInt32(&closing, 1)
+		p.a.Close()
+		p.b.Close()
+		close(stopPeer)
+		return "", "inconclusive: same-direction phase did not finish within 60 s"
+	}
+	atomic.StoreInt32(&closing, 1)
+	p.a.Close()
+	p.b.Close()
+	close(stopPeer)
+	wg.Wait()
+	peerWG.Wait()
+	vmu.Lock()
+	defer vmu.Unlock()
+	return vkey, vdesc
 }
